@@ -33,8 +33,9 @@ structure Lim where
 def Lim.init (cap : Nat) : Lim := ⟨cap, 0, none, 0, []⟩
 
 inductive LEv where
-  | load                      -- loadConfig (start-up, or the limits file changed)
+  | load                      -- loadConfig (start-up, or the limits file changed: a NEW gate object every time)
   | arrive                    -- a request calls Limiter.WriteGate() and then Start on what it got
+  | arriveDead                -- the same with a context that is already done (Start fails)
   | build                     -- a request that found no gate builds one, stores it, and uses its own (lazy only)
   | on (g : Nat) (e : Ev)     -- any other event of the handler skeleton, on gate `g`
   deriving DecidableEq, Repr
@@ -44,7 +45,26 @@ def stepGate (doneFirst : Bool) (gs : List GateRec) (g : Nat) (e : Ev) : List Ga
   | none => gs
   | some r => gs.set g { r with st := step doneFirst r.st e }
 
-def lstep (lazy doneFirst : Bool) (l : Lim) : LEv → Lim
+/-- a running request of gate `g` reaches the end of its handler, but its deferred closure looks
+    the gate up AGAIN (`h.Limiter.WriteGate().Done()`) and so releases a slot of the gate that is
+    stored now — not what the code does (`relookup = false`), kept to refute it -/
+def finishRelookup (gs : List GateRec) (g : Nat) (stored : Option Nat) : List GateRec :=
+  match gs[g]? with
+  | none => gs
+  | some r =>
+    if r.st.running = 0 then gs else
+    let gs1 := gs.set g { r with st := { r.st with running := r.st.running - 1 } }
+    match stored with
+    | none => gs1
+    | some s =>
+      match gs1[s]? with
+      | none => gs1
+      | some t => gs1.set s { t with st := done t.st }
+
+/-- `relookup = false`: a request keeps the gate it was handed (`writeGate := h.Limiter.WriteGate()`
+    once, `Start` and the deferred `Done` on that value): all `on g` events of one request carry the
+    gate it arrived at -/
+def lstep (lazy doneFirst relookup : Bool) (l : Lim) : LEv → Lim
   | .load =>
     let l := { l with epoch := l.epoch + 1 }
     if lazy then { l with stored := none }
@@ -53,6 +73,10 @@ def lstep (lazy doneFirst : Bool) (l : Lim) : LEv → Lim
     match l.stored with
     | some g => { l with gates := stepGate doneFirst l.gates g .arrive }
     | none => if lazy then { l with builders := l.builders + 1 } else l
+  | .arriveDead =>
+    match l.stored with
+    | some g => { l with gates := stepGate doneFirst l.gates g .arriveCancelled }
+    | none => l
   | .build =>
     if lazy ∧ l.builders > 0 then
       { l with builders := l.builders - 1,
@@ -61,12 +85,56 @@ def lstep (lazy doneFirst : Bool) (l : Lim) : LEv → Lim
     else l
   | .on g e =>
     -- arrivals come through the limiter only
-    if e = .arrive ∨ e = .arriveCancelled then l else { l with gates := stepGate doneFirst l.gates g e }
+    if e = .arrive ∨ e = .arriveCancelled then l
+    else if relookup ∧ e = .finish then { l with gates := finishRelookup l.gates g l.stored }
+    else { l with gates := stepGate doneFirst l.gates g e }
 
-def lrun (lazy doneFirst : Bool) (cap : Nat) (evs : List LEv) : Lim := evs.foldl (lstep lazy doneFirst) (Lim.init cap)
+def lrun (lazy doneFirst relookup : Bool) (cap : Nat) (evs : List LEv) : Lim :=
+  evs.foldl (lstep lazy doneFirst relookup) (Lim.init cap)
 
 /-- requests inside the write path that were admitted under configuration epoch `ep` -/
 def runningIn (l : Lim) (ep : Nat) : Nat := (l.gates.map fun r => if r.epoch = ep then r.st.running else 0).sum
+
+/-! ### the scripted runs of the harness over a limiter that may be reloaded -/
+
+/-- in every gate the blocked Starts take the free slots -/
+def wakeAll (doneFirst : Bool) (gs : List GateRec) : List GateRec :=
+  gs.map fun r => { r with st := wake doneFirst r.st.waiting r.st }
+
+def firstGate (p : St → Bool) : List GateRec → Nat → Option Nat
+  | [], _ => none
+  | r :: rs, i => if p r.st then some i else firstGate p rs (i + 1)
+
+/-- the steps of the `gate` op: a arrive, x arrive with a dead context (only while the stored gate is
+    full), c cancel the oldest blocked request, k the client of a running request goes away,
+    f the oldest running request completes, r the limits are reloaded -/
+inductive SEv where
+  | a | x | c | k | f | r
+  deriving DecidableEq, Repr
+
+def lscriptStep (lazy doneFirst relookup : Bool) (l : Lim) (e : SEv) : Lim :=
+  let l' : Lim :=
+    match e with
+    | .a => lstep lazy doneFirst relookup l .arrive
+    | .x =>
+      match l.stored.bind (fun g => l.gates[g]?) with
+      | some r => if r.st.gauge < (r.st.cap : Int) then l else lstep lazy doneFirst relookup l .arriveDead
+      | none => l
+    | .c =>
+      match firstGate (fun s => decide (s.waiting > 0)) l.gates 0 with
+      | some g => lstep lazy doneFirst relookup l (.on g .cancel)
+      | none => l
+    | .k => l
+    | .f =>
+      match firstGate (fun s => decide (s.running > 0)) l.gates 0 with
+      | some g => lstep lazy doneFirst relookup l (.on g .finish)
+      | none => l
+    | .r => lstep lazy doneFirst relookup l .load
+  { l' with gates := wakeAll doneFirst l'.gates }
+
+/-- does the handler look the gate up once and keep it (the code as it is), or again at the end? -/
+def codeRelookupHTTP : Bool := false
+def codeRelookupOTLP : Bool := false
 
 /-- how the limiter hands out the gate in the code as it is (tied to the source by the regenerated
     facts `limiterGateBuiltIn` / `limiterWriteGateBody`, see Props/C24.lean) -/
